@@ -59,7 +59,7 @@ func emitLits(e *emitter, lits []string, gen string) {
 func genC07(e *emitter, tier string, seed int64) {
 	rng := rand.New(rand.NewSource(seed))
 	// ---- string literals: all bodies over the alphabet up to length L in each quote style ----
-	alpha := []string{`"`, `'`, "`", `\`, "\n", "\x00", "a", "0", "7", "x", "u", "é", "😀"}
+	alpha := []string{`"`, `'`, "`", `\`, "\n", "\x00", "a", "0", "7", "x", "u", "é", "😀", "\ufffd"}
 	L := 3
 	if tier == "thorough" {
 		L = 5
